@@ -21,7 +21,7 @@ META = {
             "(normalised spec, perturbation label).",
     "reach": {"equal_pairs": 100, "perturbed_pairs": 3000,
               "#perturbation_labels": 55, "node_level_checks": 1000,
-              "expected_true_despite_change": 3},
+              "expected_true_despite_change": 3, "cross_kind_checks": 1000},
     "assumptions": [
         "module order in ir.modules is not a compared field (deep_eq is "
         "documented as insensitive to collection order)",
@@ -110,6 +110,31 @@ def run(ctx):
         both_ways(ctx, a.cfg, b.cfg, True, "equal-copies:cfg",
                   "CFGs of equal IRs")
         node_level(ctx, gtirb, na, nb)
+        # arguments of another kind (or no node at all) are never equal and
+        # never make deep_eq raise
+        objs = list(na.values())
+        for x in rnd.sample(objs, min(len(objs), 6)):
+            others = [y for y in rnd.sample(objs, min(len(objs), 6))
+                      if type(y) is not type(x)] + [None, 42, "x", a.cfg]
+            for y in others:
+                if x is a and y is a.cfg:
+                    pass
+                ctx.count("cross_kind_checks")
+                try:
+                    r = x.deep_eq(y)
+                except Exception as e:
+                    raise Discrepancy(
+                        "C18", "raises-on-other-kind:%s:%s" % (
+                            world.kind(gtirb, x), type(e).__name__),
+                        "%s.deep_eq(%s) raised %s" % (
+                            world.kind(gtirb, x), type(y).__name__,
+                            type(e).__name__), {})
+                if r is not False:
+                    raise Discrepancy(
+                        "C18", "equal-to-other-kind:%s" % world.kind(
+                            gtirb, x),
+                        "%s.deep_eq(%s) is %r" % (world.kind(gtirb, x),
+                                                  type(y).__name__, r), {})
         # perturbations
         ps = perturb.perturbations(sp, rnd, gtirb)
         rnd.shuffle(ps)
